@@ -73,7 +73,20 @@ func init() {
 			return nil
 		},
 		"Now":     func(fr *frame, args []value) value { return fr.i.clock.now },
-		"Advance": func(fr *frame, args []value) value { fr.i.clock.advance(asInt64(fr.i.concretizeInt(args[0], "clock advance"))); return nil },
+		"Advance": func(fr *frame, args []value) value {
+			// same meaning as time.Sleep: virtual time passes, timers fire in order and the
+			// other goroutines run while the caller is asleep
+			i := fr.i
+			d := asInt64(i.concretizeInt(args[0], "clock advance"))
+			if d <= 0 {
+				return nil
+			}
+			done := false
+			i.clock.newTimer(d, nil, func() { done = true }, 0)
+			i.block("verif.Advance", func() bool { return done })
+			return nil
+		},
+		"Yield": func(fr *frame, args []value) value { fr.i.yield(argStr(args[0])); return nil },
 		"Unsupported": func(fr *frame, args []value) value {
 			fr.i.unsupported("harness: %s", argStr(args[0]))
 			return nil
